@@ -322,6 +322,62 @@ func c12Cases() []c12Case {
 			}
 		}
 	}
+	// generic functions: a type parameter as a case (before or after each other case type), executed under
+	// every instantiation of the small list that satisfies the constraint
+	for _, g := range []struct {
+		cid, constraint string
+		insts           []string
+	}{
+		{"any", "any", []string{"int", "zzct", "*zzerr", "string", "error"}},
+		{"stringer", "fmt.Stringer", []string{"zzct", "*zzct", "fmt.Stringer"}},
+		{"error", "error", []string{"*zzerr", "error"}},
+	} {
+		for ti := range caseTypes {
+			for _, tFirst := range []bool{true, false} {
+				g, ti, tFirst := g, ti, tFirst
+				name := fmt.Sprintf("fg%d", n+1)
+				arms := []string{"T", caseTypes[ti].typ}
+				ids := []string{"T(" + g.cid + ")", caseTypes[ti].id}
+				if !tFirst {
+					arms[0], arms[1] = arms[1], arms[0]
+					ids[0], ids[1] = ids[1], ids[0]
+				}
+				fn := fmt.Sprintf("func %s[T %s](v interface{}) int {\n\tswitch v.(type) {\n\tcase %s:\n\t\treturn 0\n\tcase %s:\n\t\treturn 1\n\t}\n\treturn -1\n}\n", name, g.constraint, arms[0], arms[1])
+				var body strings.Builder
+				for _, inst := range g.insts {
+					fmt.Fprintf(&body, "\tfor _, v := range %s {\n\t\tobs(\"arm\", %s[%s](v))\n\t}\n", values, name, inst)
+				}
+				header := "package vpkg\n\nimport (\n\t\"errors\"\n\t\"fmt\"\n)\n\nvar _ = errors.New\nvar _ fmt.Stringer\n\n" + ctDecls + "\n"
+				out = append(out, c12Case{
+					ID:       id("caseOrder-generic", strings.Join(ids, ",")),
+					Analysed: header + fn,
+					Exec:     gorun.Case{Decls: strings.ReplaceAll(ctDecls+fn, "zz", name+"zz"), Body: strings.ReplaceAll(body.String(), "zz", name+"zz")},
+					Claims: func(ds []harness.Diag) []c12Claim {
+						var cs []c12Claim
+						for _, d := range ds {
+							if d.Checker != "caseOrder" || !strings.Contains(d.Text, "must go before") {
+								continue
+							}
+							// the reported clause is the second one (line of `case` #2)
+							shape := "type-parameter-before-" + c12TypeClass(caseTypes[ti].typ)
+							if !tFirst {
+								shape = "type-parameter-after-" + c12TypeClass(caseTypes[ti].typ)
+							}
+							cs = append(cs, c12Claim{"caseOrder|unreachable|" + shape, d.Text, func(o map[string][]string) string {
+								for _, v := range o["arm"] {
+									if v == "1" {
+										return "the case reported as unreachable was taken under some instantiation"
+									}
+								}
+								return ""
+							}})
+						}
+						return cs
+					},
+				})
+			}
+		}
+	}
 	// two functions whose same-named local types / type parameters differ in what they implement
 	for _, variant := range []string{"local-types", "type-params"} {
 		for _, order := range []string{"impl-first", "impl-second"} {
